@@ -58,7 +58,7 @@ def main():
             out["results"][f"tests:{crate}"] = "pass" if ok else "FAIL: " + r.stdout[-600:]
             print(f"[tests {crate}] {'pass' if ok else 'FAIL'}")
         sh(f"{VERIF}/tools/scratch_harness.sh {WT} {HX}")
-        env = dict(os.environ, VERIF_REPO=WT, VERIF_HARNESS=f"{HX}/harness", VERIF_TARGET_BASE=f"{HX}/target")
+        env = dict(os.environ, VERIF_REPO=WT, VERIF_HARNESS=f"{HX}/harness", VERIF_TARGET_BASE=f"{HX}/target", VERIF_EVIDENCE_DIR=f"{HX}/evidence")
         cli = None
         for p in props:
             if p in ("C11", "C20") and cli is None:
